@@ -1,6 +1,7 @@
 """C03 - every way of obtaining a channel's data gives the same data."""
 import io
 import os
+import pathlib
 import random
 import numpy as np
 
@@ -109,7 +110,8 @@ def run_case(case, ctx):
         ('memmap-eager', lambda: TdmsFile.read(io.BytesIO(blob), memmap_dir=ctx.tmpdir), False),
         ('memmap-lazy', lambda: TdmsFile.open(io.BytesIO(blob), memmap_dir=ctx.tmpdir), False),
         ('by-path', lambda: TdmsFile.read(path), False),
-        ('by-path-lazy', lambda: TdmsFile.open(path), False),
+        ('by-path-lazy', lambda: TdmsFile.open(pathlib.Path(path)), False),
+        ('constructor', lambda: TdmsFile(pathlib.Path(path), memmap_dir=None), False),
         ('raw_ts-eager', lambda: TdmsFile.read(io.BytesIO(blob), raw_timestamps=True), True),
         ('raw_ts-lazy', lambda: TdmsFile.open(io.BytesIO(blob), raw_timestamps=True), True),
     ]
@@ -148,7 +150,7 @@ def same(ctx, vname, access, got, want, info, raw_ts=False, kind=''):
 
 def check_variant(ctx, tf, vname, raw_ts, ref, desc, eager0):
     is_lazy = vname in ('lazy', 'memmap-lazy', 'by-path-lazy', 'raw_ts-lazy', 'fileobj')
-    base = {'memmap-eager': 'memmap-eager', 'memmap-lazy': 'memmap-lazy', 'by-path': 'by-path', 'by-path-lazy': 'by-path',
+    base = {'constructor': 'by-path', 'memmap-eager': 'memmap-eager', 'memmap-lazy': 'memmap-lazy', 'by-path': 'by-path', 'by-path-lazy': 'by-path',
             'raw_ts-eager': 'raw_ts', 'raw_ts-lazy': 'raw_ts', 'fileobj': 'fileobj'}.get(vname)
     if base:
         ctx.count('path:' + base)
